@@ -94,3 +94,48 @@ func Load(dir string, overlayDirs []string, patterns []string) (*Program, error)
 	}
 	return P, nil
 }
+
+// Externals lists functions and globals outside the repo packages that repo
+// code references statically and for which no model is registered.
+func (P *Program) Externals() (funcs map[string][]string, globals map[string][]string) {
+	funcs, globals = map[string][]string{}, map[string][]string{}
+	for fn := range ssautil.AllFunctions(P.Prog) {
+		if fn.Pkg == nil || !P.repoPkgs[fn.Pkg] {
+			continue
+		}
+		for _, b := range fn.Blocks {
+			for _, in := range b.Instrs {
+				var ops []*ssa.Value
+				for _, op := range in.Operands(ops) {
+					if op == nil || *op == nil {
+						continue
+					}
+					switch v := (*op).(type) {
+					case *ssa.Function:
+						if v.Pkg != nil && !P.repoPkgs[v.Pkg] {
+							name := v.String()
+							if intrinsics[name] == nil && !interpretOK[name] {
+								funcs[name] = append(funcs[name], fn.String())
+							}
+						}
+					case *ssa.Global:
+						if v.Pkg != nil && !P.repoPkgs[v.Pkg] {
+							_, ok2 := externalGlobalFns[v.String()]
+							if _, ok := externalGlobals[v.String()]; !ok && !ok2 {
+								globals[v.String()] = append(globals[v.String()], fn.String())
+							}
+						}
+					}
+				}
+				if c, ok := in.(ssa.CallInstruction); ok {
+					cc := c.Common()
+					if cc.IsInvoke() && cc.Method.Pkg() != nil && !P.repoPaths[cc.Method.Pkg().Path()] {
+						name := "invoke " + cc.Method.FullName()
+						funcs[name] = append(funcs[name], fn.String())
+					}
+				}
+			}
+		}
+	}
+	return
+}
